@@ -103,3 +103,69 @@ control_half_guarded(tsk_table_collection_t *self, long v)
     }
     return self->nodes.time[(tsk_id_t) v];
 }
+
+/* guards: the count on the left-hand side (negative control for orient()) */
+int
+control_guard_reversed(tsk_table_collection_t *self, tsk_id_t u, double *out)
+{
+    int ret = 0;
+    if ((tsk_id_t) self->nodes.num_rows <= u || 0 > u) {
+        ret = tsk_trace_error(TSK_ERR_NODE_OUT_OF_BOUNDS);
+        goto out;
+    }
+    *out = self->nodes.time[u];
+out:
+    return ret;
+}
+
+/* errprop: result assigned and tested in one condition (negative control) */
+int
+control_assign_in_condition(int x)
+{
+    int ret = 0;
+    if ((ret = control_can_fail(x)) != 0) {
+        goto out;
+    }
+    ret = control_can_fail(x + 1);
+out:
+    return ret;
+}
+
+#define TSK_NULL (-1)
+#define TSK_MAX(a, b) ((a) > (b) ? (a) : (b))
+#define TSK_MIN(a, b) ((a) < (b) ? (a) : (b))
+typedef struct { double left; double right; } control_seg_t;
+
+/* map-two-pass: the id map is consulted at a stored reference while the same loop is still filling it */
+void
+control_map_single_pass(tsk_id_t *id_map, const tsk_id_t *parent, tsk_id_t *out_parent, tsk_size_t n)
+{
+    tsk_size_t j;
+    tsk_id_t next = 0;
+    for (j = 0; j < n; j++) {
+        id_map[j] = next++;
+        out_parent[j] = parent[j] == TSK_NULL ? TSK_NULL : id_map[parent[j]];
+    }
+}
+
+/* map-two-pass: filled first, consulted afterwards (negative control) */
+void
+control_map_two_pass(tsk_id_t *id_map, const tsk_id_t *parent, tsk_id_t *out_parent, tsk_size_t n)
+{
+    tsk_size_t j;
+    tsk_id_t next = 0;
+    for (j = 0; j < n; j++) {
+        id_map[j] = next++;
+    }
+    for (j = 0; j < n; j++) {
+        out_parent[j] = parent[j] == TSK_NULL ? TSK_NULL : id_map[parent[j]];
+    }
+}
+
+/* minmax-kind: the left end of an intersection taken as a minimum; the right end correct */
+void
+control_intersection(const control_seg_t *a, const control_seg_t *b, control_seg_t *out)
+{
+    out->left = TSK_MIN(a->left, b->left);
+    out->right = TSK_MIN(a->right, b->right);
+}
